@@ -43,29 +43,31 @@ theorem connectionLost_ready_eq (s : St) (hb : s.busName = true) : connectionLos
 
 theorem lost1_frame (s : St) :
     (lost1 s).phase = .lost ∧ (lost1 s).fired = s.fired ∧ (lost1 s).busName = s.busName ∧
-    (lost1 s).timers = s.timers ∧ (lost1 s).registry = s.registry ∧ (lost1 s).proxies = s.proxies ∧
+    (lost1 s).timers = s.timers ∧ KeepsAll s (lost1 s) ∧
     (lost1 s).log = s.log ++ s.dcCallbacks.map (fun c => Fx.connCb c.id) := by
-  obtain ⟨a1, a2, a3, a4, a5, a6, a7⟩ := runConnCbs_frame s.dcCallbacks { s with phase := .lost }
-  exact ⟨a1, a2, a3, a4, a5, a6, a7⟩
+  obtain ⟨a1, a2, a3, a4, a5, a6⟩ := runConnCbs_frame s.dcCallbacks { s with phase := .lost }
+  exact ⟨a1, a2, a3, a4, a5, a6⟩
 
 theorem lost2_frame (s : St) :
     (lost2 s).phase = .lost ∧ (lost2 s).fired = s.fired ∧ (lost2 s).busName = s.busName ∧
-    (lost2 s).registry = s.registry ∧ (lost2 s).proxies = s.proxies ∧
+    KeepsAll s (lost2 s) ∧
     (lost2 s).log = s.log ++ s.dcCallbacks.map (fun c => Fx.connCb c.id) ++ (lost1 s).pending.flatMap failFx ∧
     (∀ t ∈ (lost2 s).timers, t ∈ s.timers ∧ ∀ c ∈ (lost1 s).pending, c.timed = true → c.serial ≠ t) := by
-  obtain ⟨a1, a2, a3, a4, a5, a6, a7⟩ := lost1_frame s
-  obtain ⟨b1, b2, b3, b4, b5, b6, b7⟩ := failCalls_frame (lost1 s).pending { lost1 s with pending := [] }
+  obtain ⟨a1, a2, a3, a4, a5, a7⟩ := lost1_frame s
+  obtain ⟨b1, b2, b3, b5, b6, b7⟩ := failCalls_frame (lost1 s).pending { lost1 s with pending := [] }
   refine ⟨by rw [lost2, b1]; exact a1, by rw [lost2, b2]; exact a2, by rw [lost2, b3]; exact a3,
-    by rw [lost2, b4]; exact a5, by rw [lost2, b5]; exact a6, by rw [lost2, b6]; simp [a7], ?_⟩
-  intro t ht
-  obtain ⟨h1, h2⟩ := b7 t ht
-  exact ⟨by simpa [a4] using h1, h2⟩
+    ?_, by rw [lost2, b6]; simp [a7], ?_⟩
+  · intro q x h
+    exact b5 q x (a5 q x h)
+  · intro t ht
+    obtain ⟨h1, h2⟩ := b7 t ht
+    exact ⟨by simpa [a4] using h1, h2⟩
 
 theorem lost3_basic (s : St) :
     (lost3 s).phase = .lost ∧ (lost3 s).fired = s.fired ∧ (lost3 s).busName = s.busName ∧
     (∀ t ∈ (lost3 s).timers, t ∈ s.timers ∧ ∀ c ∈ (lost1 s).pending, c.timed = true → c.serial ≠ t) := by
-  obtain ⟨b1, b2, b3, _, _, _, b7⟩ := lost2_frame s
-  obtain ⟨c1, c2, c3, _, c5⟩ := runProxies_basic (lost2 s).registry (lost2 s)
+  obtain ⟨b1, b2, b3, _, _, b7⟩ := lost2_frame s
+  obtain ⟨c1, c2, c3, c5⟩ := runProxies_basic (lost2 s).registry (lost2 s)
   refine ⟨by rw [lost3, c1]; exact b1, by rw [lost3, c2]; exact b2, by rw [lost3, c3]; exact b3, ?_⟩
   intro t ht
   rw [lost3, c5] at ht
@@ -183,7 +185,7 @@ theorem inv1_step (s : St) (e : Ev) (h : Inv1 s) : Inv1 (step .repaired s e) := 
   | proxyExplicit key =>
     simp only [step]
     split
-    · constructor <;> simp_all [Phase.concluded, makeProxy]
+    · constructor <;> simp_all [Phase.concluded, makeProxy, makeProxyCbs]
     · exact ⟨h1, h2, h3, h4, h5, h6, h7⟩
   | proxyIntrospect key =>
     simp only [step]
@@ -249,7 +251,7 @@ theorem concluded_step (s : St) (e : Ev) (hc : s.phase.concluded = true) :
       · exact hc
     · exact hc
   | authProgress => exact hc
-  | _ => simp only [step] <;> split <;> simp_all [issueCall, makeProxy, Phase.concluded]
+  | _ => simp only [step] <;> split <;> simp_all [issueCall, makeProxy, makeProxyCbs, Phase.concluded]
 
 theorem concluded_run (h : List Ev) : ∀ s : St, s.phase.concluded = true → (run .repaired s h).phase.concluded = true := by
   induction h with
